@@ -57,11 +57,13 @@ def sensitivity(pids):
 
     results = []
     for pid in pids:
-        for name, edits in MUTANTS.get(pid, []):
+        for entry in MUTANTS.get(pid, []):
+            name, edits = entry[0], entry[1]
+            env_over = entry[2] if len(entry) > 2 else None
             root = scratch_copy()
             try:
                 apply_edits(root, edits)
-                rc, out = run_check(pid, root)
+                rc, out = run_check(pid, root, extra_env=env_over, timeout=3000)
             finally:
                 shutil.rmtree(root, ignore_errors=True)
             caught = rc == 1 and f"VIOLATION property={pid}" in out
@@ -74,6 +76,27 @@ def sensitivity(pids):
     missed = [r for r in results if not r[2]]
     print(f"sensitivity: {len(results) - len(missed)}/{len(results)} mutants caught")
     return 1 if missed else 0
+
+
+def benign(pids):
+    """Changes that keep the property: every check must exit 0 on them."""
+    from sim.mutants import BENIGN
+
+    bad = 0
+    for pid in pids:
+        for name, edits in BENIGN.get(pid, []):
+            root = scratch_copy()
+            try:
+                apply_edits(root, edits)
+                rc, out = run_check(pid, root)
+            finally:
+                shutil.rmtree(root, ignore_errors=True)
+            print(f"{pid} {name}: {'QUIET' if rc == 0 else 'ALARM rc=%d' % rc}")
+            if rc != 0:
+                bad += 1
+                print("    " + "\n    ".join(l[:300] for l in out.splitlines() if l.startswith(("VIOLATION", "  invariant", "HARNESS")))[:2000])
+            sys.stdout.flush()
+    return 1 if bad else 0
 
 
 def patch(pid, patchfile, tier="quick"):
@@ -128,6 +151,8 @@ if __name__ == "__main__":
     allp = ["C03", "C09", "C12", "C15", "C17", "C18", "C20"]
     if cmd == "sensitivity":
         sys.exit(sensitivity(rest or allp))
+    if cmd == "benign":
+        sys.exit(benign(rest or allp))
     if cmd == "determinism":
         sys.exit(determinism(rest or allp))
     if cmd == "patch":
